@@ -112,6 +112,32 @@ static int run(char** t, int nt, int g, char* out)
         }
         drop(&b); return known;
     }
+    if (0 == strcmp(op, "min") && nt == 3) {
+        sprintf(out, "ok %zu", (size_t) nunavutChooseMin(strtoull(t[1], 0, 10), strtoull(t[2], 0, 10)));
+        return 1;
+    }
+    if (0 == strncmp(op, "setf", 4) && nt == 5) {   // setf32 / setf64: the float is given (and observed) as its bit pattern
+        const int w = atoi(op + 4);
+        if (w != 32 && w != 64) { return 0; }
+        Buf b = mk(t[1], g);
+        const size_t size = strtoull(t[2], 0, 10), off = strtoull(t[3], 0, 10);
+        const uint64_t bits = strtoull(t[4], 0, 10);
+        int rc;
+        if (w == 32) { const uint32_t b32 = (uint32_t) bits; float f; memcpy(&f, &b32, 4); rc = nunavutSetF32(b.p, size, off, f); }
+        else         { double d; memcpy(&d, &bits, 8); rc = nunavutSetF64(b.p, size, off, d); }
+        sprintf(out, "%s%d ", guards_ok(&b) ? "ok " : "GUARD ", rc);
+        put_hex(out, &b); drop(&b); return 1;
+    }
+    if (0 == strncmp(op, "getf", 4) && nt == 4) {
+        const int w = atoi(op + 4);
+        if (w != 32 && w != 64) { return 0; }
+        Buf b = mk(t[1], g);
+        const size_t size = strtoull(t[2], 0, 10), off = strtoull(t[3], 0, 10);
+        uint64_t bits = 0;
+        if (w == 32) { const float f = nunavutGetF32(b.p, size, off); uint32_t b32; memcpy(&b32, &f, 4); bits = b32; }
+        else         { const double d = nunavutGetF64(b.p, size, off); memcpy(&bits, &d, 8); }
+        sprintf(out, "ok %" PRIu64, bits); drop(&b); return 1;
+    }
     return 0;
 }
 
